@@ -26,16 +26,23 @@ CLAIMED = {
          'tied to UWG._procmat and to the ground columns built by generate() by exact rational execution of the real source',
          'Proof: refinement preserves thickness/resistance/capacity and yields >=2 sub-layers <=5 cm; padding picks the '
          'first depth at or below the pavement and ends within one layer of it (exactly for whole-layer gaps). The model is '
-         'checked equal to the real _procmat and to the columns the real generate() builds on synthetic EPW headers.',
+         'checked equal to the real _procmat and to the columns the real generate() builds on synthetic EPW headers. The '
+         'ground-temperature line itself is modelled (Model/EpwHeader: read back exactly for every number of depths) and tied '
+         'to the real _read_epw; a road below the deepest depth is a modelled refusal (columnOutcome, column_index_set).',
          'Trusted: Lean kernel, standard axioms, fracexec. Float effects in ceil(droad/0.05) are outside the exact model. '
          'The monthly deep temperature (T5) is checked on real runs, not proved.', 'DESIGN.md section 4 C20'),
  'C17': ('Lean 4 theorem over an abstract object machine with uninterpreted physics (induction over operation '
          'histories), tied to real UWG objects by history-level correspondence of an abstraction plus bitwise differential runs',
          'Proof: for every history and every machine, generate;simulate gives what a fresh object with the current '
          'parameters gives. The tie drives the same histories on real objects, compares an abstraction of the library state '
-         'after every operation with the Lean machine, and compares final hourly records and deep state digests with a fresh object.',
-         'Trusted: Lean kernel (no axioms needed beyond propext), the abstraction function in harness/props/c17.py. The '
-         'physics is uninterpreted; that generate() has the modelled shape is checked on generated histories, not proved.',
+         'after every operation with the Lean machine, and compares final hourly records and deep state digests with a fresh object. '
+         'Composition E models generate() itself as one Lean function (Model/Generate: _compute_input incl. the complete '
+         'RSMDef.__init__) with theorems that its result is a function of the listed arguments only, and closes the whole '
+         'program uwgMain = parameters + rural file -> morphed file; the real generate() is tied to it exactly (complete '
+         'configuration + state).',
+         'Trusted: Lean kernel, standard axioms, the abstraction function in harness/props/c17.py, the state serialisation '
+         'of props/step.py. The archetype payload of the library is data handed to the model; histories, interrupted calls, '
+         'other models in the process and fresh-process twins are explored by the tie, not proved.',
          'DESIGN.md section 4 C17'),
  'C05': ('Lean 4 non-interference theorem over a world of objects (induction over interleavings, any machine), tied to the '
          'code by a static frame scan, a dynamic monitor of all package-level state, interleaving correspondence and '
